@@ -333,6 +333,9 @@ func (r *Run) exec(g *G, fr *Frame, in ssa.Instruction) (yield bool) {
 		if !ok {
 			engineFail("FieldAddr on %T in %s (%s)", *p, fr.fn, x)
 		}
+		if x.Field >= len(s) {
+			engineFail("FieldAddr field %d of a %d-field value in %s (%s : %s)", x.Field, len(s), fr.fn, x, x.X.Type())
+		}
 		r.set(fr, x, Ptr(&s[x.Field]))
 		fr.pc++
 	case *ssa.Field:
